@@ -169,7 +169,7 @@ impl HistoryProp for P08 {
                         v.push(Act::Send(c, Piece::Rest));
                     } else if g.seq < self.max_reqs_per_gen {
                         for p in &self.pieces {
-                            if *p == Piece::Two && g.seq + 2 > self.max_reqs_per_gen {
+                            if (*p == Piece::Two || *p == Piece::GetExpect) && g.seq + 2 > self.max_reqs_per_gen {
                                 continue;
                             }
                             v.push(Act::Send(c, *p));
@@ -333,15 +333,15 @@ pub fn run(ctx: &mut Ctx) {
     // exhaustive, small responses, no flush
     let mut p = P08::new(2, 2);
     p.pieces = vec![Piece::Get, Piece::Head, Piece::Two, Piece::Expect];
-    hist::dfs(ctx, &mut p, if quick { 9 } else { 11 }, 3, "C08", 12);
+    hist::dfs(ctx, &mut p, if quick { 9 } else { 12 }, 3, "C08", 12);
     // exhaustive with flush in the alphabet (one client more shallow)
     let mut p = P08::new(2, 2);
     p.pieces = vec![Piece::Get, Piece::Put];
     p.allow_flush = true;
-    hist::dfs(ctx, &mut p, if quick { 8 } else { 10 }, 3, "C08", 12);
+    hist::dfs(ctx, &mut p, if quick { 8 } else { 11 }, 3, "C08", 12);
     // random: up to 4 clients, all pieces, responses up to 1 MiB, flush
     let mut p = P08::new(4, 6);
-    p.pieces = vec![Piece::Get, Piece::Put, Piece::Head, Piece::Two, Piece::Expect, Piece::Big];
+    p.pieces = vec![Piece::Get, Piece::Put, Piece::Head, Piece::Two, Piece::Expect, Piece::Big, Piece::GetExpect];
     p.sizes = vec![Size::Small, Size::Medium, Size::Large];
     p.allow_flush = true;
     p.use_path_server_every = 50;
